@@ -76,7 +76,13 @@ def _run(cs, tier, run_index, M):
     # constructor families that reach the pool branch (own stream: the other games of the run are unchanged):
     # a 2-fold product game of a base game with >= 3 answers per player, and a binary-constraint game over
     # 10..11 variables (Bob's 2**n bit assignments are the enumerated side)
-    if run_index % 8 == 6:
+    if run_index % 8 == 5:
+        # the best-responding player has 2**63 or more strategies (never enumerated; only the bookkeeping sees the number)
+        xs = cs.s("xgame")
+        games.append(draw_game(xs, other=[(2, 63), (2, 64), (2, 65), (3, 41), (4, 32), (2, 100)][xs.draw(6)]))
+        games[-1][2]["family"] = "lopsided_2^63"
+        res.probe("lopsided_pool_game_2^63_strategies")
+    elif run_index % 8 == 6:
         games.append(draw_product_pool_game(cs.s("xgame")))
     elif run_index % 8 == 7:
         games.append(draw_bcs_pool_game(cs.s("xgame")))
